@@ -112,7 +112,10 @@ class Acc(object):
         self.outcomes.update(other.outcomes.small)
         self.nontrivial.update(other.nontrivial.small)
         for k, v in other.counters.items():
-            self.counters[k] = self.counters.get(k, 0) + v
+            if k.startswith(('max_', 'worst_')):
+                self.counters[k] = max(self.counters.get(k, 0), v)
+            else:
+                self.counters[k] = self.counters.get(k, 0) + v
         self.violations.extend(other.violations)
         self.nviol += other.nviol
         self.harness_errors.extend(other.harness_errors)
